@@ -292,6 +292,13 @@ def run(prop, tier, seed):
             ex_stats.append(st)
             ctx.log("exhaustive %s" % st)
     tr = random_traces(ctx, tier, seed)
+    # the unmodified driver's own grading calls after adaptive refinement
+    from .. import loop_lib
+    quick_ = tier == "quick"
+    drv = loop_lib.driver_block(ctx, [("Dirichlet", "UnitSquare", 0, "anisotropic", "sobolev", 1, 2 if quick_ else 3),
+                                      ("MildSingular", "LShape", 0, "isotropic", "sobolev", 1, 2 if quick_ else 3, 0, 0, 0.9, 1.5)],
+                                {"grade"}, C19_CLAUSES)
+    ctx.log("driver %s" % drv)
     ctx.log("traces %s" % {k: v for k, v in tr.items() if k != "per_layout"})
     dm = defect_model(ctx)
     ctx.log("defect model %s" % dm)
@@ -299,7 +306,7 @@ def run(prop, tier, seed):
         "states": sum(s["tlc"]["distinct"] for s in ex_stats), "transitions": sum(s["tlc"]["generated"] for s in ex_stats),
         "traces_validated_against_impl": sum(s.get("judged_graded_meshes", 0) for s in ex_stats) + tr["graded_meshes"],
         "samples": tr["samples"] or [ex_stats[0]],
-        "exhaustive": True, "exhaustive_runs": ex_stats, "random_traces": tr, "defect_model": dm,
+        "exhaustive": True, "exhaustive_runs": ex_stats, "random_traces": tr, "defect_model": dm, "driver_runs": drv,
         "rule": "refine_grading (sigma in {1, 1.5, 2}, K = 4) from every mesh within the primitive-bisection budget on five root "
                 "layouts (TLC graph == real graph, graded meshes judged by TLC) and after random histories of up to 200 bisections",
     }
